@@ -6,8 +6,32 @@ BASE_OFF = "cd /repo && go test -mod=mod -json -vet=off -count=1 -timeout 25m ./
 claimed = {
  "C01": dict(level="fault_enumeration", design="§6 C01, §3.4",
    text="Seeded histories of install/upgrade/rollback/uninstall with flags run against the real actions and real Secret/ConfigMap/memory drivers on a simulated API server; faults (reject, drop, lost response, stall, readiness/hook failure, process death) are placed at random and, in the sweep population, at every seam call of every operation of sampled histories. Ledger invariants I1-I6 are evaluated from Storage.History/DeployedAll after every step, including crashed ones. Exhaustive over single-fault placement per sampled history; histories sampled by seed.",
-   note="Trusts the simulated API server's REST semantics and the waiter stub; memory backend gets cluster-side faults only (it cannot fail or survive a crash in reality). Known findings (swallowed storage-write errors, install --replace over a failed revision) are listed in known_findings.json.",
+   note="Trusts the simulated API server's REST semantics and the waiter stub; memory backend gets cluster-side faults only (it cannot fail or survive a crash in reality). Known findings are listed in known_findings.json.",
    technique="deterministic simulation: seeded fault/crash injection + single-fault sweep over every seam call; reference ledger invariants"),
+ "C02": dict(level="exploration", design="§6 C02",
+   text="Fault-free seeded histories interleaved with out-of-band edits/deletes/annotation toggles of live objects and planted bystanders; after every successful operation the simulated object store is compared with the recorded manifest (manifest-subset-of-live relation written independently of Helm's patch code), obsolete resources must be gone unless the live object carries keep, and every object outside the release's manifests/hooks/records must be byte-identical to its pre-step snapshot.",
+   note="The simulated server adds no defaults, so 'every field the manifest specifies' is compared literally; patches are applied with apimachinery's strategic/JSON merge implementations as a real server does.",
+   technique="deterministic simulation: simulated API-server object store behind the real kube.Client, out-of-band actor, state comparison oracle"),
+ "C03": dict(level="fault_enumeration", design="§6 C03",
+   text="Histories in which one install/upgrade/rollback receives exactly one cluster-side fault (one resource call rejected with 403/422/500 or refused, one readiness wait failing, one hook failing), placed at random and, in the sweep, on every resource call / wait / hook of every operation; the oracle checks error return, failed status of the created revision, previous revision still deployed, cleanup-on-fail, and for --atomic the restored manifest, ledger and cluster.",
+   note="Faults use codes client-go does not retry, so a rejection is a failure. Atomic clauses are judged only when the injected fault is the only refusal in the operation. Storage and discovery calls are never faulted here (C01 does that).",
+   technique="deterministic simulation: single-fault sweep over every cluster call/wait/hook of an operation; ledger + object-store oracle"),
+ "C06": dict(level="exploration", design="§6 C06",
+   text="Histories (sometimes left pending or failed by a crash) followed by install/upgrade/rollback/uninstall in every dry-run spelling and helm-template shape with random flags, hooks, crds/, CreateNamespace, post-renderer; the request log of the simulated server must contain no POST/PUT/PATCH/DELETE from the operation, the storage seam no write, history and object store must be unchanged, and client-only rendering must send nothing at all.",
+   note="helm template is replicated at the action level (DryRun+ClientOnly+Replace as pkg/cmd/template.go sets them); pkg/cmd flag parsing is not run.",
+   technique="deterministic simulation: request log of the simulated API server + recording storage seam"),
+ "C07": dict(level="exploration", design="§6 C07",
+   text="Objects are planted at identities the next install/upgrade will create, with eight flavours of ownership metadata, with and without take-ownership; the oracle demands refusal exactly when a foreign object exists, no mutating request and unchanged history/cluster on refusal, ownership stamps on every manifest object after success, and that every DELETE of the whole run names an identity of the release's manifests, hooks or records.",
+   note="Charts without crds/ and CreateNamespace (both are created before the ownership check by design).",
+   technique="deterministic simulation: pre-existing cluster state x request ordering, request-log oracle"),
+ "C08": dict(level="exploration", design="§6 C08",
+   text="Generated template files with many documents (known/unknown kinds, known/unknown/mixed hook events, blank and comment-only documents, CRLF, NOTES, partials) are installed for real and as client-only dry-run; every document must land exactly once, unaltered, in the manifest or the hook list (or nowhere for unknown events), kinds must follow the install order stably, and in the request log every creation of one kind must be answered before the first request of the next kind arrives, under scheduler-chosen answer orders and stalls of the concurrent batch.",
+   note="The exported InstallOrder/UninstallOrder tables are taken as the documented order; barrier judged on event sequence numbers of the simulator, not on time.",
+   technique="deterministic simulation: seeded interleaving of the concurrent per-kind create batch; request-order oracle + partition oracle"),
+ "C12": dict(level="fault_enumeration", design="§6 C12",
+   text="Charts with many hooks (all events, negative/equal weights, Job/Pod/ConfigMap, all delete-policy subsets) across install/upgrade/rollback/uninstall histories with left-over hook objects; every single hook is made to fail in turn (sweep) and at random; the ordered request log and waiter log are checked for weight/name order, one-at-a-time execution, before-hook-creation deletes, policy-driven deletion, the pre-hook gate on release resources, post-hook failure failing the operation, and disabled hooks.",
+   note="Hook outcomes are scripted through the waiter stub; atomic operations are excluded (their internal rollback/uninstall fire further events). Expected hooks come from the generator's own chart description, not from Helm's parser.",
+   technique="deterministic simulation: scripted hook outcomes, every hook failing in turn; ordered request-log oracle"),
 }
 pending = {}
 na = {
